@@ -68,9 +68,22 @@ def run(ctx):
         for inst in ("testdata", "random"):
             for k in rnd.sample(range(2, 28), 3):
                 cases.append({"instance": inst, "k": k, "mode": "commit", "wrapper": "vc"})
+    # compiled with gnark's real builders (what `cmd compile` does) and solved with the honest witness: a builder's variables are linear
+    # expressions / terms, it folds constants and orders deferred callbacks - none of which exists on the test engine
+    real = [{"instance": "testdata", "k": 1, "mode": "commit", "wrapper": "vc", "sys": "r1cs"},
+            {"instance": "testdata", "k": 1, "mode": "commit", "wrapper": "fixed", "sys": "r1cs"},
+            {"instance": "random", "k": 1, "mode": "commit", "wrapper": "vc", "sys": "scs"}]
+    if thorough:
+        real += [{"instance": "random", "k": 1, "mode": "commit", "wrapper": "vc", "sys": "r1cs"},
+                 {"instance": "testdata", "k": 2, "mode": "commit", "wrapper": "vc", "sys": "scs"},
+                 {"instance": "testdata", "k": 1, "mode": "commit", "wrapper": "fixed", "sys": "scs"}]
+        # the bit-decomposition override on a real builder needs about 15 GB: alone, before the parallel part
+        ctx.absorb(ctx.run_driver("wrapper", {"part": "accept", "accept": [{"instance": "testdata", "k": 1, "mode": "plain", "wrapper": "vc", "sys": "r1cs"}], "shard": 99},
+                                  tag="acc-real-plain", timeout=3500), "wrapper")
+    cases += real
     # heavy cases first
     cost = {"commit": 24, "plain": 15, "native": 3}
-    cases.sort(key=lambda c: -cost[c["mode"]] * c["k"])
+    cases.sort(key=lambda c: -(cost[c["mode"]] * c["k"] + (200 if c.get("sys") else 0)))
     ctx.extra["cases"] = len(cases)
     nsh = common.NCPU
     shards = [[] for _ in range(nsh)]
@@ -78,7 +91,7 @@ def run(ctx):
     for c in cases:
         j = load.index(min(load))
         shards[j].append(c)
-        load[j] += cost[c["mode"]] * c["k"]
+        load[j] += cost[c["mode"]] * c["k"] + (200 if c.get("sys") else 0)
 
     def one(i):
         return ctx.run_driver("wrapper", {"part": "accept", "accept": shards[i], "shard": i}, tag="acc-%d" % i, timeout=3500)
